@@ -62,9 +62,10 @@ class Ev:
     """expression / statement evaluator.  `flt`: wrap every float64 operation in `Pew.fl` (the model keeps the
     rounding) or not (the model is exact arithmetic over Rat)."""
 
-    def __init__(self, env, flt=False, funcs=None):
+    def __init__(self, env, flt=False, funcs=None, hook=None):
         self.env, self.flt, self.funcs = env, flt, funcs or {}
         self.attrs = {}  # assignments to `self.<attr>`
+        self.hook = hook  # hook(expr, ev) -> value | None: tried before the generic rules (monadic reads of from_array)
 
     # ---- arithmetic
     def rnd(self, t):
@@ -154,6 +155,10 @@ class Ev:
 
     # ---- expressions
     def ev(self, e):
+        if self.hook is not None:
+            v = self.hook(e, self)
+            if v is not None:
+                return v
         key = ast.unparse(e)
         if key in self.env and not isinstance(e, ast.Constant):
             v = self.env[key]
@@ -274,6 +279,9 @@ class Ev:
                 return self.ite(c, a, b)
             elif isinstance(s, ast.Expr) and isinstance(s.value, ast.Constant):
                 continue
+            elif isinstance(s, ast.Expr) and isinstance(s.value, ast.Call) and ast.unparse(s.value.func) in self.funcs:
+                f = self.funcs[ast.unparse(s.value.func)]  # a call made for its effect (`super().__init__(...)`)
+                f(*[self.ev(a) for a in s.value.args], **{k.arg: self.ev(k.value) for k in s.value.keywords if k.arg})
             else:
                 raise Unsupported(f"statement {type(s).__name__}")
         return None
@@ -538,6 +546,249 @@ def gen_laser_get(S):
     return rel, sha, defs, thm, samples
 
 
+
+# ----------------------------------------------------------------------------- Laser.extent, array forms, SRR layer extents
+CLS = {"raster": ("Config", {"self.spotsize": Val("spotsize", "F"), "self.speed": Val("speed", "F"), "self.scantime": Val("scantime", "F")},
+                  "(spotsize speed scantime : Rat)", "(Cfg.raster spotsize speed scantime)", "spotsize speed scantime"),
+       "spot": ("SpotConfig", {"self.spotsize": Val("sx", "F"), "self.spotsize_y": Val("sy", "F")},
+                "(sx sy : Rat)", "(Cfg.spot sx sy)", "sx sy")}
+
+
+def method_of(tree, cls, name, bases=("Config",)):
+    """the method as `cls` sees it: its own, else the one inherited from `bases`"""
+    try:
+        return find_method(tree, cls, name)
+    except Unsupported:
+        for b in bases:
+            if b != cls:
+                return find_method(tree, b, name)
+        raise
+
+
+def gen_laser_extent(S):
+    """Laser.shape, Laser.extent, Config.data_extent with the pixel getters of each class -> the four extent values"""
+    tree_c, sha_c, rel_c = S["config"]
+    tree_l, sha_l, rel_l = S["laser"]
+    shape_fn = find_method(tree_l, "Laser", "shape")
+    shp = body_value(shape_fn, Ev({"self.data.shape": Vec([Val("(data.rows : Int)", "I"), Val("(data.cols : Int)", "I")])}))
+    if not isinstance(shp, (Vec, tuple)) or len(shp) != 2:
+        raise Unsupported("Laser.shape is not the shape of the data")
+    defs, thms, samples = "", "", []
+    for kind, (cls, env, sig, ctor, args) in CLS.items():
+        def pixel(which, cls=cls, env=env):
+            return lambda: body_value(method_of(tree_c, cls, which), Ev(dict(env), flt=False))
+
+        def data_extent(shape, cls=cls, env=env):
+            fn = method_of(tree_c, cls, "data_extent")
+            if [a.arg for a in fn.args.args] != ["self", "shape"]:
+                raise Unsupported("data_extent arguments")
+            return body_value(fn, Ev({**env, "shape": shape}, flt=False,
+                                     funcs={"self.get_pixel_width": pixel("get_pixel_width"), "self.get_pixel_height": pixel("get_pixel_height")}))
+
+        ext_fn = find_method(tree_l, "Laser", "extent")
+        ext = body_value(ext_fn, Ev({"self.shape": type(shp)(shp)}, flt=False, funcs={"self.config.data_extent": data_extent}))
+        if not (isinstance(ext, tuple) and len(ext) == 4):
+            raise Unsupported("extent is not a 4-tuple")
+        e = [term(v, "F") for v in ext]
+        defs += f"def gen_laser_extent_{kind} {{α : Type}} {sig} (data : Arr2 α) : Ext :=\n  {{ x0 := {e[0]}, x1 := {e[1]}, y0 := {e[2]}, y1 := {e[3]} }}\n"
+        thms += f"""theorem gen_laser_extent_{kind}_eq {{α : Type}} {sig} (data : Arr2 α) :
+    gen_laser_extent_{kind} {args} data = laserExtent {ctor} data := by
+  simp only [gen_laser_extent_{kind}, laserExtent, Cfg.dataExtent, Cfg.pixelWidth, Cfg.pixelHeight, List.getD_cons_zero, List.getD_cons_succ,
+    Ext.mk.injEq]
+  all_goals (try (refine ⟨?_, ?_, ?_, ?_⟩))
+  all_goals (try (first | rfl | (push_cast; done) | (push_cast; ring) | (simp; done) | (simp; ring)))
+"""
+        pts = ["35 (17/10) (1/10)", "(3/10) (433/10) (7/1000)"] if kind == "raster" else ["(3/10) (7/1000)", "10 25"]
+        for pt in pts:
+            samples.append(f"decide (gen_laser_extent_{kind} {pt} ({{ rows := 59, cols := 53, get := fun _ _ => 0 }} : Arr2 Int) = "
+                           f"laserExtent (Cfg.{kind} {pt}) ({{ rows := 59, cols := 53, get := fun _ _ => 0 }} : Arr2 Int))")
+    return f"{rel_l} + {rel_c}", sha_l + "+" + sha_c, defs, thms, "#eval " + " && ".join(samples) + "\n"
+
+
+def np_array_call(fn):
+    """`return np.array(<tuple | list>, dtype=[(name, type), ...])` -> (values node, [(name, dtype text)])"""
+    stmts = strip_doc(fn.body)
+    pre, ret = stmts[:-1], stmts[-1] if stmts else None
+    if not isinstance(ret, ast.Return) or not isinstance(ret.value, ast.Call) or ast.unparse(ret.value.func) != "np.array":
+        raise Unsupported("to_array does not return np.array(...)")
+    call = ret.value
+    dt = [k.value for k in call.keywords if k.arg == "dtype"]
+    if len(call.args) != 1 or len(dt) != 1 or not isinstance(dt[0], ast.List):
+        raise Unsupported("np.array(values, dtype=[...]) expected")
+    fields = []
+    for f in dt[0].elts:
+        if not (isinstance(f, ast.Tuple) and len(f.elts) >= 2 and isinstance(f.elts[0], ast.Constant) and isinstance(f.elts[0].value, str)):
+            raise Unsupported("dtype entry")
+        fields.append((f.elts[0].value, [ast.unparse(x) for x in f.elts[1:]]))
+    return pre, call.args[0], fields
+
+
+def lean_str_list(xs):
+    return "[" + ", ".join('"' + x + '"' for x in xs) + "]"
+
+
+def gen_to_array(S):
+    """Config.to_array / SpotConfig.to_array / SRRConfig.to_array: field names in dtype order, shape and value order"""
+    tree_c, sha_c, rel_c = S["config"]
+    tree_s, sha_s, rel_s = S["srrconfig"]
+    defs, thms, samples = "", "", []
+    for kind, (cls, env, sig, ctor, args) in CLS.items():
+        pre, values, fields = np_array_call(find_method(tree_c, cls, "to_array"))
+        if pre:
+            raise Unsupported("statements before the return")
+        if any(d != ["np.float64"] for _, d in fields):
+            raise Unsupported("a field that is not np.float64")
+        ev = Ev(dict(env), flt=False)
+        if isinstance(values, ast.Tuple):  # one record: a 0-d array
+            if len(values.elts) != len(fields):
+                raise Unsupported("record length")
+            recs = "[[" + ", ".join(f".num {term(ev.ev(x), 'F')}" for x in values.elts) + "]]"
+            dim = "none"
+        elif isinstance(values, ast.List):  # a list of scalars for a one-field dtype: shape (n,)
+            if len(fields) != 1:
+                raise Unsupported("a list needs a one-field dtype")
+            recs = "[" + ", ".join(f"[.num {term(ev.ev(x), 'F')}]" for x in values.elts) + "]"
+            dim = f"some {len(values.elts)}"
+        else:
+            raise Unsupported("values are neither a tuple nor a list")
+        defs += f"def gen_to_array_{kind} {sig} : RecArr :=\n  {{ names := {lean_str_list([n for n, _ in fields])}, dim := {dim}, recs := {recs} }}\n" \
+                f"def gen_dtypes_{kind} : List String := {lean_str_list(['<f8' for _ in fields])}\n"
+        thms += f"""theorem gen_to_array_{kind}_eq {sig} :
+    gen_to_array_{kind} {args} = {ctor}.toRec ∧ gen_dtypes_{kind} = {ctor}.arrayDtypes := by
+  constructor <;> rfl
+"""
+        pt = "35 (17/10) (1/10)" if kind == "raster" else "(3/10) (7/1000)"
+        samples.append(f"decide (gen_to_array_{kind} {pt} = (Cfg.{kind} {pt}).toRec)")
+    # SRRConfig.to_array: (spotsize, speed, scantime, warmup getter, offsets getter)
+    pre, values, fields = np_array_call(find_method(tree_s, "SRRConfig", "to_array"))
+    env = {**CFG_ENV, "self.warmup": Val("c.warmupSeconds", "F")}
+    table = ".table (c.subpixelOffsets.map (fun p => ((p.1 : Int), (p.2 : Int))))"
+    tables = {"self.subpixel_offsets"}
+    for st in pre:
+        if isinstance(st, ast.Assign) and len(st.targets) == 1 and isinstance(st.targets[0], ast.Name) \
+                and ast.unparse(st.value) == "self.subpixel_offsets":
+            tables.add(st.targets[0].id)
+        else:
+            raise Unsupported("statement before the return of SRRConfig.to_array")
+    if not isinstance(values, ast.Tuple) or len(values.elts) != len(fields):
+        raise Unsupported("SRRConfig.to_array record")
+    ev = Ev(env, flt=False)
+    cells = []
+    for x, (name, d) in zip(values.elts, fields):
+        if ast.unparse(x) in tables:
+            cells.append(table)
+        else:
+            if d != ["np.float64"]:
+                raise Unsupported("a scalar field that is not np.float64")
+            cells.append(f".num {term(ev.ev(x), 'F')}")
+    defs += f"def gen_to_array_srr (c : SrrConfig) : RecArr :=\n  {{ names := {lean_str_list([n for n, _ in fields])}, dim := none, recs := [[{', '.join(cells)}]] }}\n"
+    thms += """theorem gen_to_array_srr_eq (c : SrrConfig) : gen_to_array_srr c = c.toRec := by
+  first | rfl | (simp [gen_to_array_srr, SrrConfig.toRec, SrrConfig.toArray, srrNames]; done)
+"""
+    samples.append(f"([{', '.join(CFG_SAMPLES)}] : List SrrConfig).all (fun c => decide (gen_to_array_srr c = c.toRec))")
+    return f"{rel_c} + {rel_s}", sha_c + "+" + sha_s, defs, thms, "#eval " + " && ".join(samples) + "\n"
+
+
+def init_attrs(tree, cls, kwargs):
+    """the attributes `cls(**kwargs)` sets: `__init__` evaluated symbolically (assignments to self.<attr>, `super().__init__(...)`)"""
+    fn = find_method(tree, cls, "__init__")
+    params = [a.arg for a in fn.args.args][1:]
+    defaults = dict(zip(params[len(params) - len(fn.args.defaults):], fn.args.defaults))
+    if set(kwargs) - set(params):
+        raise Unsupported("a keyword that is no parameter of __init__")
+    attrs = {}
+
+    def parent(*a, **kw):
+        if a:
+            raise Unsupported("positional super().__init__")
+        base = [b for b in next(n for n in tree.body if isinstance(n, ast.ClassDef) and n.name == cls).bases]
+        if len(base) != 1 or not isinstance(base[0], ast.Name) or base[0].id == "object":
+            raise Unsupported("base class")
+        attrs.update(init_attrs(tree, base[0].id, kw))
+
+    ev = Ev({}, flt=False, funcs={"super().__init__": parent})
+    for p_ in params:
+        if p_ in kwargs:
+            ev.env[p_] = kwargs[p_]
+        elif p_ in defaults:
+            ev.env[p_] = ev.ev(defaults[p_])
+        else:
+            raise Unsupported(f"parameter {p_} without value")
+    if ev.run(strip_doc(fn.body)) is not None:
+        raise Unsupported("__init__ returns a value")
+    attrs.update(ev.attrs)
+    return attrs
+
+
+def gen_from_array(S):
+    """Config.from_array / SpotConfig.from_array: which fields are read, in which order, how, and which constructor
+    parameter (hence attribute) each value becomes"""
+    tree, sha, rel = S["config"]
+    defs, thms, samples = "", "", []
+    for kind, cls in (("raster", "Config"), ("spot", "SpotConfig")):
+        fn = find_method(tree, cls, "from_array")
+        if [a.arg for a in fn.args.args] != ["cls", "array"]:
+            raise Unsupported("from_array arguments")
+        stmts = strip_doc(fn.body)
+        if len(stmts) != 1 or not isinstance(stmts[0], ast.Return) or not isinstance(stmts[0].value, ast.Call) \
+                or ast.unparse(stmts[0].value.func) != "cls" or stmts[0].value.args:
+            raise Unsupported("from_array is not `return cls(keyword=...)`")
+        binds = []
+
+        def hook(e, ev):
+            # float(array["name"])
+            if isinstance(e, ast.Call) and ast.unparse(e.func) == "float" and len(e.args) == 1 and not e.keywords \
+                    and isinstance(e.args[0], ast.Subscript) and ast.unparse(e.args[0].value) == "array" \
+                    and isinstance(e.args[0].slice, ast.Constant) and isinstance(e.args[0].slice.value, str):
+                v = f"v{len(binds)}"
+                binds.append(f'let {v} ← a.floatField "{e.args[0].slice.value}"')
+                return Val(v, "F")
+            # array["name"][i]
+            if isinstance(e, ast.Subscript) and isinstance(e.slice, ast.Constant) and isinstance(e.slice.value, int) and e.slice.value >= 0 \
+                    and isinstance(e.value, ast.Subscript) and ast.unparse(e.value.value) == "array" \
+                    and isinstance(e.value.slice, ast.Constant) and isinstance(e.value.slice.value, str):
+                c_, v = f"c{len(binds)}", f"v{len(binds)}"
+                binds.append(f'let {c_} ← a.field "{e.value.slice.value}"')
+                binds.append(f"let {v} ← (match a.dim with | none => throw ArrErr.indexError | some _ => spotElem {c_} {e.slice.value})")
+                return Val(v, "F")
+            if isinstance(e, ast.Name) and e.id == "array":
+                raise Unsupported("the array used in another way")
+            return None
+
+        ev = Ev({}, flt=False, hook=hook)
+        kwargs = {}
+        for k in stmts[0].value.keywords:  # Python evaluates keyword arguments left to right
+            if k.arg is None:
+                raise Unsupported("**kwargs")
+            kwargs[k.arg] = ev.ev(k.value)
+        attrs = init_attrs(tree, cls, kwargs)
+        need = ("spotsize", "speed", "scantime") if kind == "raster" else ("spotsize", "spotsize_y")
+        if any(a not in attrs for a in need):
+            raise Unsupported("an attribute the class needs is not set by __init__")
+        result = f"Cfg.{kind} " + " ".join(term(attrs[a], "F") for a in need)
+        body = "\n  ".join(binds + [f"pure ({result})"])
+        defs += f"def gen_from_array_{kind} (a : RecArr) : Except ArrErr Cfg := do\n  {body}\n"
+        thms += f"""theorem gen_from_array_{kind}_eq (a : RecArr) : gen_from_array_{kind} a = Cfg.fromRec .{kind} a := by
+  first
+  | rfl
+  | (unfold gen_from_array_{kind} Cfg.fromRec
+     cases h1 : a.field "spotsize" <;> cases h2 : a.dim <;>
+       simp [h1, h2, bind, Except.bind, pure, Except.pure, throw, throwThe, MonadExceptOf.throw] <;>
+       (try (split <;> simp_all [bind, Except.bind, pure, Except.pure])))
+"""
+        # sample arrays of the fallback comparison: the class's own array form and other layouts that carry every field it reads
+        # (what from_array does with arrays of OTHER classes is outside the property; the differential tie records it)
+        if kind == "raster":
+            arrs = "[(Cfg.raster 35 (17/10) (1/10)).toRec, (Cfg.raster (3/10) (433/10) (7/1000)).toRec, " \
+                   "(Pew.Srr.SrrConfig.make 35 140 (1/4) (1/2) [(0, 2), (1, 2)]).toRec, " \
+                   '{ names := ["scantime", "extra", "speed", "spotsize"], dim := none, recs := [[.num 1, .num 9, .num 2, .num 3]] }]'
+        else:
+            arrs = "[(Cfg.spot (3/10) (7/1000)).toRec, (Cfg.spot 10 25).toRec, " \
+                   '{ names := ["other", "spotsize"], dim := some 3, recs := [[.num 7, .num 1], [.num 8, .num 2], [.num 9, .num 3]] }]'
+        samples.append(f"({arrs} : List RecArr).all (fun a => decide (gen_from_array_{kind} a = Cfg.fromRec .{kind} a))")
+    return rel, sha, defs, thms, "#eval " + " && ".join(samples) + "\n"
+
+
 SPECS = [
     ("C10Magnification", "SRRConfig.magnification (float64 product and quotient)", gen_magnification),
     ("C10Warmup", "SRRConfig.warmup setter and getter (float64 quotient, half-even rounding; float64 product)", gen_warmup),
@@ -545,6 +796,9 @@ SPECS = [
     ("C10SrrPixel", "SRRConfig.get_pixel_width / get_pixel_height (layer None / even / odd)", gen_srr_pixel),
     ("C10SrrExtent", "SRRLaser.shape, SRRLaser.extent and SRRConfig.data_extent", gen_srr_extent),
     ("C10LaserGet", "Laser.get extent -> index conversion int(round(v / p, 6)) and the slice it feeds", gen_laser_get),
+    ("C10LaserExtent", "Laser.shape, Laser.extent and Config.data_extent with the pixel getters of Config and SpotConfig", gen_laser_extent),
+    ("C10ToArray", "to_array of Config, SpotConfig and SRRConfig (field names in dtype order, shape, value order, float64)", gen_to_array),
+    ("C10FromArray", "from_array of Config and SpotConfig (fields read, order, conversion, constructor parameter of each value)", gen_from_array),
 ]
 
 _cache = {}
